@@ -89,7 +89,14 @@ def get_trans(spec):
         for f, x in zip(FIELDS, v):
             setattr(t, f, x)
         return t
+    if kind.startswith('names:'):
+        # the datum labels are free text and play no part in the arithmetic: equal labels, empty labels, labels of shipped sets
+        a, b = kind[6:].split('>')
+        return gc.Transformation(a, b, 0, *v)
     return gc.Transformation('A', 'B', 0, *v)
+
+
+NAME_KINDS = ['names:ITRF2014>ITRF2014', 'names:>', 'names:GDA94>GDA94', 'names:GDA2020>GDA94', 'names:B>A', 'names:same>same']
 
 
 def par_of(t):
@@ -159,6 +166,10 @@ def gen_formula(tier, seed):
     for i, name in enumerate(sorted(lattice_sets())):
         if i % 6 == 0 or not name.startswith('corner'):
             yield {'trans': [('assigned', 'copyadj', 'deepadj')[i % 3], name], 'pts': pts[::3]}
+    for i, name in enumerate(('small', 'ints', 'corner085', 'axis0p', 'axis4m', 'axis6p', 'zero')):
+        if name in lattice_sets():
+            for j, nk in enumerate(NAME_KINDS):
+                yield {'trans': [nk, name], 'pts': pts[(i + j) % 5::5]}
 
 
 def ev_formula(case, rec):
@@ -273,6 +284,10 @@ def gen_cov(tier, seed):
     # a lattice set carrying synthetic uncertainties
     yield {'trans': ['lat', 'small'], 'pt': COV_PTS[0], 'mats': mats, 'sd': [0.01, 0.02, 0.03, 0.004, 0.0005, 0.0006, 0.0007]}
     yield {'trans': ['lat', 'corner085'], 'pt': COV_PTS[1], 'mats': mats, 'sd': [0.5, 0.25, 0.125, 1.0, 0.5, 0.25, 2.0]}
+    # large uncertainties: rotation sigmas of a minute of arc and more (a sigma is a plain number of arc-seconds, whatever its size)
+    yield {'trans': ['lat', 'small'], 'pt': COV_PTS[0], 'mats': mats[::2], 'sd': [10.0, 20.0, 30.0, 40.0, 59.5, 60.0, 75.0]}
+    yield {'trans': ['lat', 'small'], 'pt': COV_PTS[3], 'mats': mats[::2], 'sd': [1e3, 1e-9, 5.0, 100.0, 100.0, 3600.0, 0.6]}
+    yield {'trans': ['names:GDA94>GDA94', 'small'], 'pt': COV_PTS[0], 'mats': mats[::2], 'sd': [0.01, 0.02, 0.03, 0.004, 0.0005, 0.0006, 0.0007]}
     # uncertainty objects whose values are (partly) exactly zero while the parameters are not: the input covariance is still
     # carried through scale and rotation
     for name, pt in (('small', COV_PTS[0]), ('corner085', COV_PTS[1]), ('axis4p', COV_PTS[3])):
